@@ -260,6 +260,7 @@ def gen(item, rng, tier):
     if item['k'] == 'cell':
         return gen_cell(grid()[item['cell']], rng, item['rep'])
     case = c18.gen_case({'k': 'stream'}, rng, tier)
+    case['hooks'] = bool(rng.getrandbits(1))
     case['scenario'] = 'nested-random'
     return case
 
@@ -450,6 +451,11 @@ def run(case):
         b.observers = [mon, inj, RangeMonitor(report=False)]
     else:
         b = StreamBoard(case, [])
+        if case.get('hooks'):
+            # an integrator's hook in place of the declared-unimplemented mock tlb_lookup_came_from_cache_maintenance() ("no, it was an ordinary access"):
+            # with it the long-descriptor and Hyp-routed abort paths run to their exception entry instead of ending in NotImplementedError
+            b.cores[0].arm.tlb_lookup_came_from_cache_maintenance = lambda: False
+            b.count('probe.integrator-hook-installed')
         mon = EntryMonitor(b, 0)
         b.observers = [mon, RangeMonitor(report=False)]
     b.run()
